@@ -67,6 +67,7 @@ type RpcCase struct {
 	Codec       string   `json:"codec"`      // json | proto
 	Comp        string   `json:"comp"`       // "" | gzip
 	Shape       string   `json:"shape"`      // unary | cstream | sstream | bidi
+	Duplex      bool     `json:"duplex"`     // the handler sends from a goroutine of its own while it receives (the two directions of a stream are independent)
 	BodyWriter  bool     `json:"bodywriter"` // server stream over HTTP whose one reply goes out through larking.AsHTTPBodyWriter (method Dl, HttpBody output)
 	Opts        []string `json:"opts"`       // unaryInt | streamInt | stats
 	Sizes       []int    `json:"sizes"`      // sizes of the client messages (payload filler bytes)
@@ -507,7 +508,32 @@ func (e *rpcEnv) runScript(ctx context.Context, recv func(proto.Message) error, 
 		return work
 	}
 	defer func() { scribble(work) }()
+	var sender sync.WaitGroup
+	if e.c.Duplex {
+		// all send steps run in their own goroutine, in order, while this one goes through the other steps
+		sender.Add(1)
+		go func() {
+			defer sender.Done()
+			n := 0
+			for i, st := range e.c.Script {
+				if st.Op != "send" {
+					continue
+				}
+				n++
+				err := send(repMsg(e.c.ID, n, st.Size))
+				e.mu.Lock()
+				e.h.Sends = append(e.h.Sends, SendObs{Step: i + 1, Err: errClass(err)})
+				e.mu.Unlock()
+			}
+		}()
+	}
 	for i, st := range e.c.Script {
+		if e.c.Duplex && st.Op == "send" {
+			continue
+		}
+		if e.c.Duplex && st.Op == "ret" {
+			sender.Wait()
+		}
 		switch st.Op {
 		case "sethdr":
 			err := setHdr(wireMD(st.MD))
